@@ -269,6 +269,7 @@ class Spec(PropSpec):
         return F.histogram(cases)
 
 
-THEOREMS = ["c02_nonvacuous"]
+THEOREMS = ["c02_prefix", "c02_peek_prefix", "c02_peek_then_read", "c02_no_overflow", "c02_credits",
+            "c02_wouldblock_iff", "c02_complete", "c02_nonvacuous"]
 Spec.theorems = THEOREMS
 SPEC = Spec()
